@@ -48,13 +48,13 @@ CFG = {
                   "receiver fields, receiver calls, returns and loops in full, extracted from the source on every run, equal what the models "
                   "transcribe. F46, F47, F117 (round 1) and F217, F317, F417 (round 2) were real violations, fixed in /repo (one commit each). "
                   "Round 3: textinput_models_agree (+_inv): the model over merging graphemes run with the never-merging segmentation on single-atom content IS the merge-free model, "
-                  "event by event, panic for panic - the two textinput models are one; the scrolled case of textinput.Draw for EVERY window width: textinput_cells_scrolled (the cells are the "
+                  "event by event, panic for panic, and (textinput_models_agree_run) over all histories - the two textinput models are one; the scrolled case of textinput.Draw for EVERY window width: textinput_cells_scrolled (the cells are the "
                   "prompt then the window of the text from the final offset on, left truncator iff offset > 0, right truncator at the grapheme that reaches the edge and nothing after it, mask in "
                   "password mode) and textinput_cursor_scrolled (cursor column in closed form); textinput_cursor_at_grapheme_partial says exactly when the drawn cursor is at its grapheme, "
                   "Witness.F517 that it is not always (narrow windows: drawn at the prompt's end) - observed on the real code, outside the property text ('while the text fits'), recorded not repaired.",
     "level_note": "Validated by correspondence only: that Key.String()/Key.Matches produce the strings/verdicts the tables list (C09's subject); that "
                   "uniseg is a Segmentation and equals the driver's clUax (compared on every op); which offset Draw settles on when the line does NOT fit (the scroll policy: modelled in draw/scrollLoop, compared cell by cell; theorems say what is "
-                  "shown for the offset it settles on and bound it by 0 <= offset <= cursor, not which offset it is). Modelled, not "
+                  "shown for the offset it settles on and bound it by 0 <= offset <= cursor, not which offset it is). New oracle on the implementation (round 3): in the scrolled case the drawn row is the prompt followed by a window of the ideal text for some offset 0..cursor, truncators at the cut ends. Modelled, not "
                   "verified: nothing in the editing functions; guards outside loops are tied by correspondence, not by Gen facts. Not modelled: "
                   "direct assignment to the public field TextField.Value, HideCursor, a tab typed into textinput (vaxis.Characters turns it into 8 "
                   "blanks before the editor sees it).",
